@@ -39,12 +39,17 @@ class DivZero(Exception):
     pass
 
 
+class Panic(Exception):
+    pass
+
+
 class GridEval:
     """values are Fractions, bools, ('range', lo, hi, inclusive)"""
 
-    def __init__(self, assign, types=None):
+    def __init__(self, assign, types=None, resolve=None):
         self.a = assign
         self.types = types or {}        # parameter name -> type string (fixed-point newtypes are valued in their own units)
+        self.resolve = resolve          # name of a local that was assigned before the walked region -> its defining term, or None
 
     def ev(self, t):
         k = t[0]
@@ -54,6 +59,10 @@ class GridEval:
             m = re.match(r"^(?:\(\*)?([A-Za-z_][A-Za-z0-9_]*)\)?\.0$", str(t[1]))
             if m and m.group(1) in self.a:
                 return self.a[m.group(1)] * _unit_of(self.types.get(m.group(1)))
+            if self.resolve is not None:
+                r = self.resolve(t[1])
+                if r is not None:
+                    return self.ev(r)
             raise Undecided("read of %s" % (t[1],))
         if k == "promoted":
             # a promoted constant such as &F2Dot14(0): one constructor over one integer constant
@@ -74,6 +83,15 @@ class GridEval:
             raise Undecided("constant %r" % (t[3],))
         if k == "cast":
             return self.ev(t[4])
+        if k == "discr":
+            inner = t[1]
+            while inner[0] in ("ref", "deref"):
+                inner = inner[1]
+            if inner[0] == "call" and str(inner[1] or "").endswith("::cmp") and len(inner[2]) == 2:
+                a, b_ = self.ev(inner[2][0]), self.ev(inner[2][1])
+                # std::cmp::Ordering is repr(i8): Less = -1 (255 as the switch value), Equal = 0, Greater = 1
+                return Fraction(255 if a < b_ else (1 if a > b_ else 0))
+            raise Undecided("discriminant of %s" % (inner[0],))
         if k == "un":
             v = self.ev(t[2])
             if t[1] == "Neg":
@@ -148,7 +166,7 @@ class GridEval:
             if name.endswith("::clamp") and len(args) == 3:
                 v, lo, hi = (self.ev(x) for x in args)
                 if lo > hi:
-                    raise DivZero()
+                    raise Panic()
                 return min(max(v, lo), hi)
             if any(name.endswith(s) for s in _CONV) and len(args) == 1:
                 return self.ev(args[0])
@@ -204,18 +222,22 @@ def value_at(paths, assign, types=None):
             if all(ev.holds(c) for c in conds):
                 hit.append(ret)
         except DivZero:
-            hit.append(None)
+            hit.append("div0")
+        except Panic:
+            hit.append("panic")
     if len(hit) != 1:
         raise Undecided("%d paths apply for %r" % (len(hit), assign))
-    if hit[0] is None:
-        return "div0"
+    if hit[0] in ("div0", "panic"):
+        return hit[0]
     try:
         return ev.ev(hit[0])
     except DivZero:
         return "div0"
+    except Panic:
+        return "panic"
 
 
-def compare(body, params, grid, spec, valid=None, limit=3, places=None):
+def compare(body, params, grid, spec, valid=None, limit=3, places=None, outcome=None):
     """-> (number of assignments compared, [(assignment, got, want)]). `places` maps a parameter name of the specification to the
     place string the body reads it from (default: a local of that name)"""
     import itertools
@@ -230,8 +252,50 @@ def compare(body, params, grid, spec, valid=None, limit=3, places=None):
             continue
         n += 1
         got = value_at(paths, {places.get(k, k): v for k, v in a.items()}, types)
+        if outcome is not None:
+            got = outcome(got)
         want = spec(**a)
         if got != want:
             if len(bad) < limit:
                 bad.append((a, got, want))
     return n, bad
+
+
+def _atoms(t, acc):
+    if not isinstance(t, tuple) or not t:
+        return
+    if t[0] == "init":
+        acc.add(re.sub(r"\.0$", "", str(t[1])))
+        return
+    for x in t[1:]:
+        if isinstance(x, tuple):
+            if x and isinstance(x[0], str):
+                _atoms(x, acc)
+            else:
+                for y in x:
+                    _atoms(y, acc)
+
+
+def never_panics(body, max_atoms=5):
+    """(n assignments, atoms) when the function, read as a decision list over the scalar places it reads, reaches no argument panic
+    (clamp with lower > upper) for any assignment of a grid that contains every ordering and tie of those places; raises Undecided when
+    the function cannot be read, ("panic", assignment) is returned as (None, assignment) when one does"""
+    import itertools
+    paths = read_paths(body)
+    atoms = set()
+    for conds, ret in paths:
+        for c, _v in conds:
+            _atoms(c, atoms)
+        _atoms(ret, atoms)
+    atoms = sorted(atoms)
+    if not atoms or len(atoms) > max_atoms:
+        raise Undecided("%d scalar inputs" % len(atoms))
+    types = {body.local_name(i): body.local_ty(i) for i in range(1, body.arg_count + 1)}
+    grid = [Fraction(k) for k in range(-(len(atoms) // 2) - 1, len(atoms) // 2 + 2)]
+    n = 0
+    for vals in itertools.product(grid, repeat=len(atoms)):
+        a = dict(zip(atoms, vals))
+        n += 1
+        if value_at(paths, a, types) == "panic":
+            return None, a
+    return n, atoms
